@@ -30,7 +30,7 @@ func (rt *runtime) cmplEvaluateNodeStatement(node nodeStatement) Value {
 		value := rt.cmplEvaluateNodeStatementList(node.list)
 		if value.kind == valueResult {
 			if value.evaluateBreak(labels) == resultBreak {
-				return emptyValue
+				return value.resultValue()
 			}
 		}
 		return value
@@ -79,7 +79,12 @@ func (rt *runtime) cmplEvaluateNodeStatement(node nodeStatement) Value {
 				rt.labels = nil
 			}
 		}()
-		return rt.cmplEvaluateNodeStatement(node.statement)
+		value := rt.cmplEvaluateNodeStatement(node.statement)
+		if value.kind == valueResult && value.evaluateBreak([]string{node.label}) == resultBreak {
+			// A break to this label completes the labelled statement normally (12.12)
+			return value.resultValue()
+		}
+		return value
 
 	case *nodeReturnStatement:
 		if node.argument != nil {
@@ -115,11 +120,15 @@ func (rt *runtime) cmplEvaluateNodeStatement(node nodeStatement) Value {
 }
 
 func (rt *runtime) cmplEvaluateNodeStatementList(list []nodeStatement) Value {
-	var result Value
+	result := emptyValue
 	for _, node := range list {
 		value := rt.cmplEvaluateNodeStatement(node)
 		switch value.kind {
 		case valueResult:
+			// An abrupt completion without a value carries the value of the statements before it (12.1)
+			if !result.isEmpty() && value.evaluateBreakContinue(nil) == resultReturn && value.resultValue().isEmpty() {
+				return value.withResultValue(result)
+			}
 			return value
 		case valueEmpty:
 		default:
@@ -151,8 +160,14 @@ resultBreak:
 				case resultReturn:
 					return value
 				case resultBreak:
+					if carried := value.resultValue(); !carried.isEmpty() {
+						result = carried
+					}
 					break resultBreak
 				case resultContinue:
+					if carried := value.resultValue(); !carried.isEmpty() {
+						result = carried
+					}
 					goto resultContinue
 				}
 			case valueEmpty:
@@ -286,8 +301,14 @@ resultBreak:
 				case resultReturn:
 					return value
 				case resultBreak:
+					if carried := value.resultValue(); !carried.isEmpty() {
+						result = carried
+					}
 					break resultBreak
 				case resultContinue:
+					if carried := value.resultValue(); !carried.isEmpty() {
+						result = carried
+					}
 					goto resultContinue
 				}
 			case valueEmpty:
@@ -344,7 +365,10 @@ func (rt *runtime) cmplEvaluateNodeSwitchStatement(node *nodeSwitchStatement) Va
 					case resultReturn:
 						return value
 					case resultBreak:
-						return emptyValue
+						if carried := value.resultValue(); !carried.isEmpty() {
+							result = carried
+						}
+						return result
 					}
 				case valueEmpty:
 				default:
@@ -415,8 +439,14 @@ resultBreakContinue:
 				case resultReturn:
 					return value
 				case resultBreak:
+					if carried := value.resultValue(); !carried.isEmpty() {
+						result = carried
+					}
 					break resultBreakContinue
 				case resultContinue:
+					if carried := value.resultValue(); !carried.isEmpty() {
+						result = carried
+					}
 					continue resultBreakContinue
 				}
 			case valueEmpty:
